@@ -68,6 +68,13 @@ def gen_fdesc(rng, zero_safe, positive=False, depth=0):
         return {"k": "ranges", "parts": [first, [rng.choice([">", ">="]), c, gen_fdesc(rng, zero_safe, depth=2)]]}
     if r < 0.35:
         return {"k": "withderiv", "base": {"k": "lambda", "name": "poly2", "p": [_u(rng, -2, 2), _u(rng, -2, 2), _u(rng, -0.5, 0.5)]}}
+    if r < 0.47:
+        # pre-tabulated data through the legacy TableReader (linear interpolation, 0 outside the table)
+        n = rng.randint(4, 9)
+        x0 = rng.choice([0.0, 0.0, 0.1, 0.35])
+        top = rng.choice([3.0, 5.0, 8.0])
+        xs = [round(x0 + (top - x0) * i / (n - 1), 4) for i in range(n)]
+        return {"k": "tablereader", "pts": [[x, round(rng.uniform(-1, 1) + 10.0 / (1 + 3 * x), 4)] for x in xs]}
     if r < 0.65:
         name = rng.choice(sorted(LAMBDAS))
         return {"k": "lambda", "name": name, "p": [_u(rng, lo, hi) for lo, hi in LAMBDAS[name][1]]}
@@ -129,6 +136,40 @@ def gen_api_model(rng, natural=False, tier="quick"):
     return spec
 
 
+def fdesc_boundaries(fd):
+    """Range-start and table-knot values of an FDesc (points where its value may change form)."""
+    out = []
+    k = fd.get("k")
+    if k == "ranges":
+        for t, start, f in fd["parts"]:
+            out.append(float(start))
+            out += fdesc_boundaries(f)
+    elif k in ("plus", "product"):
+        out += fdesc_boundaries(fd["a"]) + fdesc_boundaries(fd["b"])
+    elif k == "failing":
+        out += [float(fd["edge"])] + fdesc_boundaries(fd["base"])
+    elif k == "tablereader":
+        out += [float(x) for x, y in fd["pts"]]
+    return out
+
+
+def function_fdescs(spec):
+    """{harness label: FDesc} for every function of an ApiSpec."""
+    out = {}
+    for nm, pref in (("pairs", "pair"), ("dipole", "dipole"), ("quadrupole", "quadrupole")):
+        for p in spec[nm]:
+            out["%s:%s-%s" % (pref, p["a"], p["b"])] = p["f"]
+    for e in spec["eam"]:
+        out["embed:%s" % e["species"]] = e["embed"]
+        d = e["density"]
+        if isinstance(d, dict) and "k" not in d:
+            for t in d:
+                out["dens:%s->%s" % (e["species"], t)] = d[t]
+        else:
+            out["dens:%s" % e["species"]] = d
+    return out
+
+
 def function_slots(spec):
     out = []
     for i, _ in enumerate(spec["pairs"]):
@@ -187,6 +228,9 @@ def build_callable(fd):
         return create_Multi_Range_Potential_Form(*[Multi_Range_Defn(t, s, build_callable(f)) for t, s, f in fd["parts"]])
     if k == "withderiv":
         return _WithDeriv(*fd["base"]["p"])
+    if k == "tablereader":
+        import io
+        return atsim.potentials.TableReader(io.StringIO("".join("%s %s\n" % (fmt_num(x), fmt_num(y)) for x, y in fd["pts"])))
     if k == "failing":
         base = build_callable(fd["base"])
         edge = fd["edge"]
@@ -237,6 +281,23 @@ class ApiTarget(object):
             self.obj = et.ADP_EAMTabulation(self.pairs, self.eam, self.dipole, self.quadrupole, cutoff, nr, crho, nrho)
         elif hasattr(et, w):
             self.obj = getattr(et, w)(self.pairs, self.eam, cutoff, nr, crho, nrho)
+
+    # the same public names the tabulation classes use, so that harness code can address the functions uniformly
+    @property
+    def potentials(self):
+        return self.pairs
+
+    @property
+    def eam_potentials(self):
+        return self.eam
+
+    @property
+    def dipole_potentials(self):
+        return self.dipole
+
+    @property
+    def quadrupole_potentials(self):
+        return self.quadrupole
 
     @property
     def workbook(self):
